@@ -161,7 +161,8 @@ class Gen:
                 seq += ["crop 0 0 0 0", "sf 1 1"]
             return seq
         if k < 12:
-            return ["dy " + self.jref(kinds, ids)[1]]
+            return [r.choice(["dy ", "dy ", "dyp "]) + self.jref(kinds, ids)[1]] if r.chance(3, 4) else \
+                ["ldy %s %d" % (self.jref(kinds, ids)[1], r.choice(LEGACY_FLAGS) | r.choice(LEGACY_FLAGS))]
         if k < 13:
             w, h = self.dims()
             return ["uy %d %d %d %d" % (w, h, r.range(0, 50), self.pf())]
@@ -188,6 +189,16 @@ class Gen:
         if k < 8:
             return ["h " + j, "tb %d %d" % (r.range(0, 7), opts & 0x4F)]
         return ["lt %s %d %d %d" % (j, r.range(0, 7), opts & ~16, r.choice(LEGACY_FLAGS))]
+
+    def image_io(self, inst):
+        """tj3SaveImage* / tj3LoadImage* (PPM for 8/12/16 bit, BMP for 8 bit): work on a temporary instance"""
+        r = self.r
+        prec = r.choice([8, 8, 12, 16])
+        if r.chance(1, 2):
+            w, h = self.dims()
+            return ["si %d %d %d %d %d %d" % (prec, min(w, 64), min(h, 64), r.range(0, 50), r.choice([0, 1, 2, 6, 7]), r.range(0, 1))]
+        # no RGBX-type format: tj3LoadImage* leaves the unused X byte of such pixels unset (unspecified by the API)
+        return ["li %d %d %d" % (prec, r.range(0, 1), r.choice([0, 1, 6, 7, 8]))]
 
     def any_ops(self, inst, probe=False):
         r = self.r
@@ -223,12 +234,14 @@ class Gen:
                 ops.append("sf %d %d" % (r.choice(SF) if r.chance(4, 5) else (3, 7)))
             elif k < 8:
                 ops.append("bad %d" % r.range(0, 7))
+            elif k < 9 and r.chance(1, 3):
+                ops += self.image_io(inst)
             else:
                 ops += self.any_ops(inst)
         # parameter changes just before the probe make "switched among modes" histories
         if r.chance(1, 2):
             ops.append(self.setp(inst))
-        probe = self.any_ops(inst, probe=True)
+        probe = self.any_ops(inst, probe=True) if not r.chance(1, 25) else self.image_io(inst)
         ops += probe
         return "I %s ; " % inst + " ; ".join(ops)
 
@@ -373,6 +386,8 @@ def finding_signature(hist, res):
         stt = o.get("S", "").split()
         if len(stt) >= 2 and ((stt[0] != "c:-" and not stt[0].startswith("c:100,")) or (stt[1] != "d:-" and not stt[1].startswith("d:200,"))):
             return "errpath:global_state-not-START-after:" + (ops[oi + 1].split()[0] if oi + 1 < len(ops) else "?")
+    if probe and probe[0] == "mb" and not crash:
+        return "F40:maxmemory-boundary:permanent-pool"
     if "jdapistd.c" in crash and "read_and_discard_scanlines" in crash and "use-after-free" in crash:
         return "F5:stale-cconvert:skip-scanlines-merged-upsampling"
     # the same defect without a sanitizer: the stale pointer is read and written silently, the pixels may differ
@@ -498,6 +513,24 @@ def run_hists(ctx, hists, exes, drv, flavours):
                     res["fresh"].get("rc"), res["fresh"].get("st"), res["fresh"].get("h"))
             elif res["kind"] == "L" and res["fresh"] and (res["fresh"].get("rc") != res["ops"][-1].get("rc") or res["fresh"].get("h") != res["ops"][-1].get("h")):
                 bad = "libjpeg API: reused object gives a different result than a fresh object (%s build)" % fl
+            if not bad and res["kind"] == "R":
+                # getters after a failed call: a header-reading call that fails in its argument checks or inside
+                # jpeg_read_header leaves every tj3Get-visible parameter (and scaling factor, cropping region, ICC size) as it was
+                prev = res.get("init", "")
+                hops = [o.strip().split() for o in h.split(";")][1:]
+                for oi, o in enumerate(res["ops"]):
+                    cur = o.get("S", "")
+                    stg = o.get("st", "")
+                    if oi < len(hops) and hops[oi] and hops[oi][0] in ("h", "lh", "d", "dy", "dyp", "ldy", "ld", "t", "uy") and \
+                            (stg in ("T0", "T1") or stg.startswith("Ed200") or stg.startswith("Ed201")):
+                        pa = [p for p in prev.split() if p.startswith("p:")]
+                        pb = [p for p in cur.split() if p.startswith("p:")]
+                        if pa and pb and pa[0] != pb[0] and not (hops[oi][0] == "ld" and False):
+                            bad = "call %d (%s) failed at %s but changed the parameters the getters report: %s -> %s (%s build)" % (
+                                oi + 1, hops[oi][0], stg, pa[0][:120], pb[0][:120], fl)
+                            break
+                        ctx.cov["getter_checks_after_failed_calls"] = ctx.cov.get("getter_checks_after_failed_calls", 0) + 1
+                    prev = cur
             if not bad and res["kind"] == "R":
                 # the memory manager's total_space_allocated accounts exactly for what its pools hold, after every call
                 for oi, o in enumerate(res["ops"]):
@@ -700,7 +733,7 @@ def to_model_call(idx, toks, res, pre, post, flags):
         a["fail"] = S_ARGS
         a["bufmode"] = 2
         k = int(toks[1]) % 8
-        return {0: "c.8", 4: "c.8", 1: "d.8.100", 5: "d.8.100", 2: "h.10", 3: "t.10", 6: "dy.1", 7: "ey"}[k], a
+        return {0: "c.8", 4: "c.8", 1: "d.8.100", 5: "d.8.100", 2: "h.10", 3: "t.10", 6: "dy.10", 7: "ey"}[k], a
     if op in ("h", "lh"):
         i, kind, selfc = dec_facts(toks[1])
         dec_fail("h")
@@ -711,13 +744,29 @@ def to_model_call(idx, toks, res, pre, post, flags):
         has = 1 if ((rc == 0 or st == "W") and not a.get("tables_only") and post["d"][9] == 1 and (pre["d"][9] == 0 or i in ICC_IDS)) else 0
         a.update({"has_icc": has, "icc_id": 1})
         return "h.%d%d" % (selfc, 0 if a["fail"] == S_ARGS else 1), a
-    if op in ("d", "dy"):
+    if op in ("si", "li"):
+        prec = int(toks[1]) if int(toks[1]) in (8, 12, 16) else 8
+        a.update({"img": 9500 + idx, "bmp_density": 1 if (op == "li" and rc == 0 and int(toks[2]) and prec == 8) else 0,
+                  "o_xDensity": pp["xDensity"], "o_yDensity": pp["yDensity"], "o_densityUnits": pp["densityUnits"]})
+        if rc != 0:
+            a["fail"] = S_ARGS if T is not None else S_SCAN
+            if T is None:
+                raise Unsupported("image file error")
+        return "%s.%d" % (op, prec), a
+    if op in ("d", "dy", "dyp", "ldy"):
         ref = toks[2] if op == "d" else toks[1]
+        if op == "ldy":
+            flagargs(int(toks[2]))
         i, kind, selfc = dec_facts(ref)
-        dec_fail(op)
-        if op == "dy":
+        dec_fail("dy" if op in ("dyp", "ldy") else op)
+        if op in ("dy", "dyp", "ldy"):
             a["merged_obs"] = post["d"][10]
-            return "dy.%d" % selfc, a
+            if op == "ldy":
+                a.update({"sfn": pp["sfn"], "sfd": pp["sfd"]})
+                if a["fail"] == S_POSTHDR:
+                    a["fail"] = S_POSTHDR     # "Could not determine subsampling" is raised by tj3DecompressToYUV8 after the wrapper
+                return "ldy.%d" % selfc, a
+            return "dy.%d%d" % (selfc, 1 if op == "dyp" else 0), a
         bits = int(toks[1])
         bits = 8 if bits <= 8 else 12 if bits <= 12 else 16
         crop = 1 if (pq["cx"] or pq["cy"] or pq["cw"] or pq["ch"]) else 0
